@@ -20,10 +20,13 @@ THEOREMS = [
     "C16.ops_exact",
     "C16.params_declared",
     "C16.schemas_describe_models",
+    "C16.body_key_is_name",
     "C16.bulk_closed",
     "C16.bulk_key_not_closed",
+    "C16.bulk_ops_exact",
+    "C16.bulk_params_declared",
+    "C16.bulk_roundtrip",
     "C16.bulk_appended_batch_lost",
-    "C16.body_key_is_name",
     "C16.gen_routes_undocumented_column_raises",
     "C16.payload_via_parse_samples",
 ]
@@ -37,7 +40,7 @@ MULTI = ["FooBar", "UserAccount", "HttpRequestLog", "OrderLineItem", "DataSet", 
 BODYISH = ["Body", "BodyPart", "AntiBody", "RequestBody", "BodyBodyX", "Bod", "FooB", "FooBo", "FooBod", "MyBodyShop", "Bodybody"]
 ODD = ["Foo2", "Item2Go", "Foo_Bar", "foo", "HTTPServer", "ID", "fooBar", "Config_tbl", "A1b2"]
 COLTYPES = ["Integer", "String", "Boolean", "Float", "JSON"]
-COLNAMES = ["id", "name", "dataset_name", "created", "value", "flag", "payload", "k", "owner_id", "slug"]
+COLNAMES = ["id", "name", "dataset_name", "created", "value", "flag", "payload", "K", "owner_id", "slug", "datasetName", "ID"]
 COLDOCS = ["the id", "name of thing", "primary identifier", "a value", "some `code` text", "flag: yes/no", "x"]
 PRELUDE = "from sqlalchemy import JSON, Boolean, Column, Float, Integer, String\nfrom sqlalchemy.orm import declarative_base\n\nBase = declarative_base()\n\n\n"
 
@@ -425,7 +428,10 @@ RAW_DOCS = [
     '"""Create `{n}`\n\n```yml\nresponses:\n  \'201\':\n    description: A `{n}` object.\n    content:\n      application/json:\n        schema:\n          $ref: ```{n}```\n```\n\n:return: x\n:rtype: ```dict```\n"""',
     '"""\nList things\n\n```yml\nresponses:\n  \'200\':\n    description: many\n```\n\n:return: x\n:rtype: ```dict```\n"""',
     '"""\nUpdate `{n}`\n\n```yml\nresponses:\n  \'200\':\n    content:\n      application/json:\n        schema:\n          $ref: ```{n}```\n  \'404\':\n    content:\n      application/json:\n        schema:\n          $ref: ```ServerError```\n  \'204\':\n```\n"""',
-    '"""\nNo yaml responses\n\n```yml\ndescription: `{n}` here\n```\n"""',
+    '"""\nNo yaml responses\n\n```yml\ndescription: about `{n}` here\n```\n"""',
+    '"""\nBody by hand `{n}`\n\n```yml\nrequestBody:\n  $ref: \'#/components/requestBodies/{n}Body\'\nresponses:\n  \'200\':\n    description: ok\n```\n"""',
+    '"""\nOdd request bodies\n\n```yml\nrequestBody: {rb}\nresponses: {{}}\n```\n"""',
+    None,
 ]
 
 
@@ -452,7 +458,7 @@ def impl_raw(case: dict) -> dict:
                 ir = cdd.sqlalchemy.parse.sqlalchemy(node)
                 tables.append({"name": ir["name"], "schema": enc(cdd.json_schema.emit.json_schema(ir))})
             src = "rest_api = other = None\n\n" + "\n\n".join(
-                "@%s.%s(%r)\ndef f%d(%s):\n    %s\n    return None\n" % (fn["app"], fn["method"], fn["path"], i, "", fn["doc"].replace("\n", "\n    "))
+                "@%s.%s(%r)\ndef f%d(%s):\n    %s\n    return None\n" % (fn["app"], fn["method"], fn["path"], i, "", (fn["doc"] or "pass").replace("\n", "\n    "))
                 for i, fn in enumerate(case["fns"]))
             with open(rp, "w") as f:
                 f.write(src)
@@ -515,7 +521,7 @@ def check_case(chk, case, res, model_bulk, model_emit, stats):
                     stats["dis_oracle"] += 1
                     chk.disagreement("C16 oracle agreement (closed / ops) on emit documents", case, verdict, [model_emit["closed"], model_emit["ops"]])
     elif "emit_error" in res:
-        chk.failure({"region": "emit", "kind": res["emit_error"]}, "emit.openapi raises %s" % res["emit_error"], replay)
+        chk.failure({"region": "emit", "kind": res["emit_error"]}, "emit.openapi raises %s" % res["emit_error"][7:], replay)
     # ---- openapi_bulk --------------------------------------------------------------------------------------
     if "bulk" in res:
         doc = dec(res["bulk"])
@@ -525,6 +531,7 @@ def check_case(chk, case, res, model_bulk, model_emit, stats):
             if sig["kind"] == "dangling-ref":
                 name = sig["ref"].rpartition("/")[2]
                 mm = [m for m in models if m["cls"] == name]
+                sig["target"] = "generated-class" if mm else "other"
                 sig["key_eq_name"] = bool(mm) and title_key(mm[0]["table"]) == name
                 sig.pop("ref")
             if sig["kind"] == "ops-not-exact":
@@ -549,7 +556,10 @@ def check_case(chk, case, res, model_bulk, model_emit, stats):
                 chk.failure({"region": "bulk", "kind": "roundtrip-paths-differ"}, "paths read back from the generated routes differ from emit.openapi at %s" % diff[:3], replay)
             want_rb = {k: v for k, v in em["components"]["requestBodies"].items() if any(k == e["name"] + "Body" and "C" in e["crud"] for e in seen_ents)}
             if doc["components"]["requestBodies"] != want_rb:
-                chk.failure({"region": "bulk", "kind": "roundtrip-request-bodies-differ"}, "requestBodies read back %s, emit %s" % (sorted(doc["components"]["requestBodies"]), sorted(want_rb)), replay)
+                got_rb = doc["components"]["requestBodies"]
+                bad_keys = sorted(set(got_rb) ^ set(want_rb)) or [k for k in got_rb if got_rb[k] != want_rb[k]]
+                chk.failure({"region": "bulk", "kind": "roundtrip-request-bodies-differ"},
+                            "requestBodies read back from the generated routes differ from emit.openapi at %s: %s vs %s" % (bad_keys[:2], json.dumps(got_rb.get(bad_keys[0]))[:200], json.dumps(want_rb.get(bad_keys[0]))[:200]), replay)
             for m, info in zip(models, res["models"]):
                 key = title_key(info["table"])
                 want = {k: v for k, v in dec(info["schema"]).items() if not k.startswith("$")}
@@ -565,7 +575,7 @@ def check_case(chk, case, res, model_bulk, model_emit, stats):
                     stats["dis_oracle"] += 1
                     chk.disagreement("C16 oracle agreement (closed / ops) on bulk documents", case, verdict, [model_bulk["closed"], model_bulk["ops"]])
     elif "bulk_error" in res:
-        chk.failure({"region": "bulk", "kind": res["bulk_error"]}, "openapi_bulk raises %s" % res["bulk_error"], replay)
+        chk.failure({"region": "bulk", "kind": res["bulk_error"]}, "openapi_bulk raises %s" % res["bulk_error"][7:], replay)
         if model_bulk is not None and model_bulk.get("raises") != res["bulk_error"][7:]:
             stats["dis_bulk"] += 1
             chk.disagreement("C16 correspondence: OpenApi.bulk vs cdd.compound.openapi.gen_openapi.openapi_bulk", case, res["bulk_error"], model_bulk)
@@ -625,6 +635,13 @@ def gen_parse_case(r):
     return {"s": s, "method": r.choice(["get", "post", "patch", "delete", "put"]), "summary": r.choice(["Sum", "", "Create `X`"])}
 
 
+def raw_doc(r, n):
+    d = r.choice(RAW_DOCS)
+    if d is None:
+        return None
+    return d.replace("{rb}", r.choice(["{}", "x", "[1]", "{a: 1}", "{$ref: 5}", "{$ref: '#/x/yBody'}", "{$ref: 'noslashBodyBody'}"])).replace("{{}}", "{}").replace("{n}", n)
+
+
 def gen_raw_case(r):
     used: set = set()
     models = [gen_model(r, used, undocumented_ok=False) for _ in range(r.randint(1, 2))]
@@ -633,7 +650,7 @@ def gen_raw_case(r):
     for _ in range(r.randint(1, 5)):
         fns.append({"app": r.choice(["rest_api", "rest_api", "rest_api", "other"]), "method": r.choice(["get", "post", "delete", "put", "patch"]),
                     "path": r.choice([base, base, base + "/:id", base + "/:id", base + "/:id/sub/:k", base + "/x:y"]),
-                    "doc": r.choice(RAW_DOCS).replace("{n}", r.choice([m["cls"] for m in models] + ["Other"]))})
+                    "doc": raw_doc(r, r.choice([m["cls"] for m in models] + ["Other", "My/Thing"]))})
     if r.random() < 0.5:
         fns.sort(key=lambda f: f["path"])
     return {"models": models, "fns": fns}
@@ -653,7 +670,7 @@ def run(chk: core.Check) -> int:
     have_driver = core.DRIVER.exists()
     stats = {"dis_emit": 0, "dis_bulk": 0, "dis_oracle": 0}
     # ---- (1) generated documents: models → routes → bulk, and emit ---------------------------------------------
-    cases = [gen_case(rng, k) for k in range(260 if chk.quick else 3000)]
+    cases = [gen_case(rng, k) for k in range(800 if chk.quick else 6000)]
     # pinned witnesses of the known findings and of the mock, always included
     cols = [["id", "Integer", "the id", True, None], ["name", "String", "the name", False, None]]
     pinned = [
@@ -743,7 +760,7 @@ def run(chk: core.Check) -> int:
             chk.disagreement("C16 correspondence: extractEntities vs extract_entities", s, a, b)
     chk.oblige("correspondence: OpenApi.extractEntities = extract_entities on %d strings (exhaustive token sequences + random)" % len(strings), "correspondence", have_driver and dis == 0, "%d disagreements" % dis)
     # ---- (5) parse.openapi with the loader's result supplied --------------------------------------------------------
-    qcases = [gen_parse_case(rng) for _ in range(1500 if chk.quick else 20000)]
+    qcases = [gen_parse_case(rng) for _ in range(3000 if chk.quick else 30000)]
     qimpl = core.pmap(impl_parse, qcases, chunksize=256)
     idx = [i for i, r in enumerate(qimpl) if "loaded" in r and "unencodable" not in json.dumps(r["loaded"])]
     qmodel = core.model_batch([{"op": "c16.parse", "s": qcases[i]["s"], "loaded": qimpl[i]["loaded"], "method": qcases[i]["method"], "summary": qcases[i]["summary"]} for i in idx]) if have_driver else []
@@ -761,7 +778,7 @@ def run(chk: core.Check) -> int:
     chk.coverage["parse_outcomes"] = kinds
     chk.oblige("correspondence: OpenApi.parseOpenapi = parse.openapi (rewritten text handed to the loader, result dict / exception class) on %d inputs" % len(idx), "correspondence", have_driver and dis == 0, "%d disagreements" % dis)
     # ---- (6) malformed stream for emit.openapi: tie only ------------------------------------------------------------
-    mcases = [gen_malformed_emit(rng) for _ in range(1500 if chk.quick else 20000)]
+    mcases = [gen_malformed_emit(rng) for _ in range(3000 if chk.quick else 30000)]
     mimpl = core.pmap(impl_emit, mcases, chunksize=256)
     mmodel = core.model_batch([{"op": "c16.emit", "entries": es} for es in mcases]) if have_driver else []
     dis = 0
@@ -779,7 +796,7 @@ def run(chk: core.Check) -> int:
             chk.disagreement("C16 oracle agreement (closed / ops) on malformed emit documents", es, verdict, [m["closed"], m["ops"]])
     chk.oblige("correspondence: OpenApi.openapi = emit.openapi on %d malformed tuple lists (odd cruds, clashing names/routes, `$ref`s in schemas)" % len(mcases), "correspondence", have_driver and dis == 0, "%d disagreements" % dis)
     # ---- (7) hand-written route functions through openapi_bulk: tie only ---------------------------------------------
-    rcases = [gen_raw_case(rng) for _ in range(150 if chk.quick else 2000)]
+    rcases = [gen_raw_case(rng) for _ in range(400 if chk.quick else 4000)]
     rimpl = core.pmap(impl_raw, rcases, chunksize=8)
     ridx = [i for i, r in enumerate(rimpl) if "bottle_error" not in r]
     rmodel = core.model_batch([{"op": "c16.bulk_raw", "app": "rest_api", "tables": rimpl[i]["tables"], "routes": rimpl[i]["routes"]} for i in ridx]) if have_driver else []
